@@ -408,17 +408,17 @@ func (p *parser) _act(prod int32) any {
 		)
 	case 5:
 		return p.on_stmt(
-			_cast[Statement](p._stack.Peek(1).Sym),
+			_cast[*VarAssign](p._stack.Peek(1).Sym),
 			_cast[Token](p._stack.Peek(0).Sym),
 		)
 	case 6:
 		return p.on_stmt(
-			_cast[Statement](p._stack.Peek(1).Sym),
+			_cast[*While](p._stack.Peek(1).Sym),
 			_cast[Token](p._stack.Peek(0).Sym),
 		)
 	case 7:
 		return p.on_stmt(
-			_cast[Statement](p._stack.Peek(1).Sym),
+			_cast[*IfStatement](p._stack.Peek(1).Sym),
 			_cast[Token](p._stack.Peek(0).Sym),
 		)
 	case 8:
@@ -558,7 +558,7 @@ func (p *parser) _act(prod int32) any {
 		)
 	case 30:
 		return p.on_simple_expr(
-			_cast[Expr](p._stack.Peek(0).Sym),
+			_cast[*FuncCall](p._stack.Peek(0).Sym),
 		)
 	case 31:
 		return p.on_simple_expr(
@@ -566,7 +566,7 @@ func (p *parser) _act(prod int32) any {
 		)
 	case 32:
 		return p.on_simple_expr(
-			_cast[Expr](p._stack.Peek(0).Sym),
+			_cast[*VarRef](p._stack.Peek(0).Sym),
 		)
 	case 33:
 		return p.on_var_ref(
